@@ -243,11 +243,15 @@ pub trait AnyGuard {
     fn read(&self) -> (usize, i64, u32);
     fn write(&mut self, p: i64);
     fn dup(&self) -> Option<Box<dyn AnyGuard>>;
+    /// is this a `Fetch` (the only guard type that is Clone)?  Never borrows.
+    fn cloneable(&self) -> bool {
+        false
+    }
     fn canary(&self) -> u64;
     fn set_canary(&mut self, v: u64);
 }
 macro_rules! guard_impl {
-    ($G:ident, $mutable:expr, $dup:expr) => {
+    ($G:ident, $mutable:expr, $dup:expr, $cl:expr) => {
         impl<T: Tracked> AnyGuard for $G<'static, T> {
             fn read(&self) -> (usize, i64, u32) {
                 let v: &T = &*self;
@@ -260,6 +264,9 @@ macro_rules! guard_impl {
             }
             fn dup(&self) -> Option<Box<dyn AnyGuard>> {
                 $dup(self)
+            }
+            fn cloneable(&self) -> bool {
+                $cl
             }
             fn canary(&self) -> u64 {
                 let v: &T = &*self;
@@ -290,10 +297,10 @@ fn wr_w<T: Tracked>(g: &mut Write<'static, T>, p: Option<i64>, c: Option<u64>) {
         Probe::set_canary(&mut **g, c)
     }
 }
-guard_impl!(Fetch, no_write, |s: &Fetch<'static, T>| Some(Box::new(s.clone()) as Box<dyn AnyGuard>));
-guard_impl!(FetchMut, wr_fm, |_s: &FetchMut<'static, T>| None);
-guard_impl!(Read, no_write, |_s: &Read<'static, T>| None);
-guard_impl!(Write, wr_w, |_s: &Write<'static, T>| None);
+guard_impl!(Fetch, no_write, |s: &Fetch<'static, T>| Some(Box::new(s.clone()) as Box<dyn AnyGuard>), true);
+guard_impl!(FetchMut, wr_fm, |_s: &FetchMut<'static, T>| None, false);
+guard_impl!(Read, no_write, |_s: &Read<'static, T>| None, false);
+guard_impl!(Write, wr_w, |_s: &Write<'static, T>| None, false);
 
 impl AnyGuard for AtomicRef<'static, dyn Probe> {
     fn read(&self) -> (usize, i64, u32) {
@@ -528,7 +535,10 @@ impl Drop for Driver {
             std::mem::forget(std::mem::take(&mut self.table));
             return;
         }
-        self.table.clear();
+        let t = std::mem::take(&mut self.table);
+        if catch_unwind(AssertUnwindSafe(move || drop(t))).is_err() {
+            return; // a guard's destructor panicked (corrupted counter): leak the world
+        }
         unsafe {
             drop(Box::from_raw(self.meta));
             drop(Box::from_raw(self.world));
@@ -669,6 +679,19 @@ impl Driver {
             })
             .collect();
         json!({"cells": cells, "guards": guards, "drops": drops()})
+    }
+
+    /// Releases every live guard one by one as ordinary logged `drop` calls (each followed by
+    /// an observation), so that a wrong borrow COUNT - which the probes cannot see while other
+    /// guards are live - shows up before the history ends.
+    pub fn finish(&mut self) -> Vec<Value> {
+        let mut evs = Vec::new();
+        while self.abort.is_none() {
+            let Some((&g, e)) = self.table.iter().next() else { break };
+            let c = CallSpec { op: "drop".into(), targ: e.ty, ty: e.ty, dy: e.dy, gs: vec![g], ..Default::default() };
+            evs.push(self.do_call(&c));
+        }
+        evs
     }
 
     // -------------------------------------------------------------- one call
@@ -992,6 +1015,9 @@ pub fn thread_fetch(w: &'static World, op: &str, ci: usize, id: ResourceId) -> O
         "fetch_mut" => Some(Box::new(w.fetch_mut::<R>()) as Box<dyn AnyGuard>),
         "try_fetch_mut" => w.try_fetch_mut::<R>().map(|g| Box::new(g) as Box<dyn AnyGuard>),
         "try_fetch_by_id" => w.try_fetch_by_id::<R>(id).map(|g| Box::new(g) as Box<dyn AnyGuard>),
+        // the Option forms of system data (= try_fetch / try_fetch_mut, see MStyle in World.tla)
+        "sd_optread" => w.system_data::<Option<Read<'static, R>>>().map(|g| Box::new(g) as Box<dyn AnyGuard>),
+        "sd_optwrite" => w.system_data::<Option<Write<'static, R>>>().map(|g| Box::new(g) as Box<dyn AnyGuard>),
         _ => w.try_fetch_mut_by_id::<R>(id).map(|g| Box::new(g) as Box<dyn AnyGuard>),
     })
 }
